@@ -92,6 +92,7 @@ func init() {
 		{"C10", "narrowcounter", props.NarrowCounters("gmw", "circuit")},
 		{"C06", "retained", props.RetainedCallerSlices("ot")},
 		{"C06", "extrows", props.OTExtensionCounts},
+		{"C06", "rolestate", props.OTRoleState},
 		{"C06", "rsamask", props.RSAMaskDomain},
 		{"C02", "rsamask", props.RSAMaskDomain},
 		{"C02", "extrows", props.OTExtensionCounts},
